@@ -3,6 +3,7 @@ package handlers
 import (
 	"context"
 	"strings"
+	"sync/atomic"
 
 	"github.com/mimecast/dtail/internal"
 	"github.com/mimecast/dtail/internal/config"
@@ -87,6 +88,11 @@ func (h *ServerHandler) handleUserCommand(ctx context.Context, ltx lcontext.LCon
 			return
 		}
 		h.aggregate = aggregate
+		// The aggregation is done once all other commands of the session (the ones
+		// reading the files) are done, not earlier.
+		aggregate.MoreLinesChExpected = func() bool {
+			return atomic.LoadInt32(&h.activeCommands) > 1
+		}
 		go func() {
 			command.Start(ctx, h.maprMessages)
 			commandFinished()
